@@ -1,6 +1,8 @@
 package main
 
 import (
+	"regexp"
+	"go/ast"
 	"fmt"
 	"go/types"
 	"sort"
@@ -71,7 +73,7 @@ func normFamily(pk string) string {
 func checkC18(c *Ctx) {
 	p := mustLoad(c, K1)
 	eff := NewEffects(p)
-	c.Rule("C18.mod", "EFFECTS: an exported function or method does not write, directly or through callees, memory reachable from a pointer/slice/map parameter other than its receiver, unless (family|func|param) is a documented destination listed with a reason in the checker's table", 2500)
+	c.Rule("C18.mod", "EFFECTS: an exported function or method does not write, directly or through callees, memory reachable from a pointer/slice/map parameter other than its receiver, unless (family|func|param) is a documented destination listed with a reason in the checker's table, or the function's own doc comment names the parameter as what it sets / writes into / overwrites (verb next to the parameter's name)", 2500)
 	dest := documentedDestinations()
 	used := map[string]bool{}
 	var undocumented []string
@@ -96,6 +98,11 @@ func checkC18(c *Ctx) {
 			}
 			ok := len(w) == 0
 			msg := ""
+			if !ok && docNamesDestination(funcDoc(p, fn), fn.Params[i].Name()) {
+				// a destination documented by the function's own comment (new API need not be in the table)
+				c.Ob("C18.mod", relPkg(fnPkgPath(fn)), funcKey(fn), fmt.Sprintf("param#%d-documented-destination", i-start), p.Pos(fn.Pos()), true, "")
+				continue
+			}
 			if !ok {
 				if len(w) > 5 {
 					w = append(w[:5], "…")
@@ -234,6 +241,41 @@ func reachesPointerRec(t types.Type, d int) bool {
 		}
 	case *types.Array:
 		return reachesPointerRec(u.Elem(), d+1)
+	}
+	return false
+}
+
+// funcDoc: the doc comment of a source function (empty when it has none).
+func funcDoc(p *Program, fn *ssa.Function) string {
+	if fn.Syntax() == nil {
+		return ""
+	}
+	if fd, ok := fn.Syntax().(*ast.FuncDecl); ok && fd.Doc != nil {
+		return fd.Doc.Text()
+	}
+	return ""
+}
+
+// docNamesDestination: the doc comment of the function says that the parameter is written: "sets
+// dst to", "writes ... into dst", "stores the result in res", "fills table", "dst = ...",
+// "x is overwritten / modified", "in place". The verb has to stand next to the parameter's name:
+// "sets p to the sum of points" documents p, not points.
+func docNamesDestination(doc, name string) bool {
+	if doc == "" || name == "" || name == "_" {
+		return false
+	}
+	n := regexp.QuoteMeta(name)
+	pats := []string{
+		`(?i)\b(sets?|fills?|overwrites?|modifies|mutates|updates|clears|zeroes|resets|populates)\s+(the\s+)?(slice\s+|vector\s+|buffer\s+|elements of\s+)?` + n + `\b`,
+		`(?i)\b(in|into|to)\s+` + n + `\b[^.;]*$|(?i)\b(writes?|stores?|puts?|places?|copies|copy|saves?|appends?|results?|output)\b[^.;]{0,60}\b(in|into|to)\s+(the\s+)?` + n + `\b`,
+		`(?i)\b` + n + `\b\s*(=|:=|←|<-|\+=|\*=|-=)`,
+		`(?i)\b` + n + `\b\s+(is|are|gets?|will be|must be)\s+(set|written|overwritten|filled|modified|updated|the (output|destination|result))`,
+		`(?i)\bin[- ]place\b[^.;]{0,40}\b` + n + `\b|\b` + n + `\b[^.;]{0,40}\bin[- ]place\b`,
+	}
+	for _, pt := range pats {
+		if regexp.MustCompile(pt).MatchString(doc) {
+			return true
+		}
 	}
 	return false
 }
